@@ -76,6 +76,14 @@ def mk_pickle(cls, state):
     return f.getvalue()
 
 
+def untransform(data):
+    """records of a HexStorage-wrapped file are b'.h' + hex"""
+    if data is not None and data[:2] == b'.h':
+        from binascii import unhexlify
+        return unhexlify(data[2:])
+    return data
+
+
 class Tokens:
     """real record bytes <-> canonical 3-byte tokens (hex): 01hhll = RC state hh*256+ll,
     00hhll = interned opaque state of an unresolvable class"""
@@ -87,6 +95,7 @@ class Tokens:
     def of(self, data):
         if data is None:
             return None
+        data = untransform(data)
         v = self.rc_value(data)
         if v is not None:
             return '01%04x' % v
@@ -184,6 +193,7 @@ class Real:
 
     def __init__(self, case, tmp):
         self.mode = case['mode']
+        self.storage_kind = case.get('storage', 'file')
         self.ops = case['ops']
         self.dir = os.path.join(tmp, 'case')
         shutil.rmtree(self.dir, ignore_errors=True)
@@ -216,7 +226,21 @@ class Real:
             return r
         fs.undo = recording_undo
         if self.mode == 'db':
-            self.db = ZODB.DB(fs)
+            # the database sits on the FileStorage directly, or on a wrapper that delegates undo to it:
+            # DemoStorage(changes=FileStorage) (votes on behalf of the changes storage) or the
+            # record-transforming HexStorage (conflict resolution has to untransform)
+            kind = self.storage_kind
+            if kind == 'demo':
+                import random as _random
+                from ZODB.DemoStorage import DemoStorage
+                _random.seed(12345)             # DemoStorage draws its first oid from `random`
+                self.top = DemoStorage(changes=fs)
+            elif kind == 'hex':
+                from ZODB.tests.hexstorage import HexStorage
+                self.top = HexStorage(fs)
+            else:
+                self.top = fs
+            self.db = ZODB.DB(self.top)
             self.tm1 = transaction.TransactionManager()
             self.c1 = self.db.open(self.tm1)
             self.tm2 = transaction.TransactionManager()
@@ -511,7 +535,10 @@ class Real:
             if self.mode == 'st':
                 self.fs.pack(t, lambda data, oids=None: [], gc=False)
             else:
-                self.fs.pack(t, ZODB.serialize.referencesf, gc=bool(gc))
+                if self.storage_kind == 'demo':     # no garbage collection over a base storage
+                    self.top.pack(t, ZODB.serialize.referencesf, gc=False)
+                else:
+                    self.top.pack(t, ZODB.serialize.referencesf, gc=bool(gc))
             ev['res'] = 'ok'
         except Exception as e:                       # e.g. nothing to pack / already packed to a later time
             ev['res'] = 'Other:' + type(e).__name__
@@ -619,6 +646,7 @@ def obj_view(obj):
 
 
 def data_view(data):
+    data = untransform(data)
     """decode record bytes into the same view, independently of any connection"""
     import pickle
     refs = []
@@ -1052,7 +1080,10 @@ def gen_cases(rng, n_hist, thorough):
         for _ in range(2 if not thorough else 4):
             tails.append(gen_tail(rng, mode, labels, names, dict(written), rng.choice([2, 3, 4, 5]), counter))
         for t in tails:
-            cases.append(dict(mode=mode, ops=hist + t))
+            c = dict(mode=mode, ops=hist + t)
+            if mode == 'db' and (h // 4) % 3:
+                c['storage'] = 'demo' if (h // 4) % 3 == 1 else 'hex'
+            cases.append(c)
     return cases
 
 
@@ -1088,6 +1119,9 @@ def run_blob_case(case, tmp):
     def open_():
         if case.get('variant') == 'native':
             S['st'] = FileStorage(path, blob_dir=os.path.join(d, 'blobs'))
+        elif case.get('variant') == 'hexnative':        # a record-transforming wrapper around it
+            from ZODB.tests.hexstorage import HexStorage
+            S['st'] = HexStorage(FileStorage(path, blob_dir=os.path.join(d, 'blobs')))
         else:
             S['st'] = BlobStorage(os.path.join(d, 'blobs'), FileStorage(path))
         S['db'] = ZODB.DB(S['st'])
@@ -1207,7 +1241,7 @@ def run_blob_case(case, tmp):
                 cnt('blob-undo:real-%s/predicted-%s' % (res, outcome))
                 later = sorted(o for o, c in classes.items() if c == 'grey-blob')
                 nprob = len(problems)
-                if res == 'Other:POSKeyError' and outcome != 'fail' and case.get('variant') != 'native':
+                if res == 'Other:POSKeyError' and outcome != 'fail' and case.get('variant') == 'wrap':
                     problems.append(('C06:blobstorage-undo-poskeyerror', 'BlobStorage: undo of %s raised '
                                      'POSKeyError although every object is restorable (%s)' % (ev['ids'], classes)))
                 elif res not in ('ok', 'UndoError'):
@@ -1253,7 +1287,7 @@ def run_blob_case(case, tmp):
 def gen_blob_cases(rng, n):
     cases = []
     for h in range(n):
-        variant = 'wrap' if h % 3 != 2 else 'native'
+        variant = ('wrap', 'native', 'hexnative')[h % 3]
         names = ['b0', 'b1']
         hist, created = [], {}
         for i in range(rng.choice([1, 2, 2, 3, 4])):
@@ -1301,7 +1335,9 @@ def is_nontrivial(stats):
 
 
 def canonical(case):
-    return [case['mode'], case.get('variant'), case['ops']]
+    if case['mode'] == 'session':
+        return ['session', [canonical(c) for c in case['cases']]]
+    return [case['mode'], case.get('variant'), case.get('storage'), case['ops']]
 
 
 class StepBlocked(BaseException):
@@ -1341,6 +1377,13 @@ def judge_real_only(case, tmp, timeout=None):
 
 
 def _judge(case, tmp):
+    if case['mode'] == 'session':
+        # several cases one after the other in ONE process: module-level state of the code under test
+        # (e.g. ConflictResolution's class caches) is carried from one to the next; the last one is judged
+        res = None
+        for sub in case['cases']:
+            res = _judge(sub, tmp)
+        return res
     if case['mode'] == 'blob':
         res = run_blob_case(case, tmp)
         if any(p[0] == 'C06:step-blocked' for p in res['problems']):
@@ -1380,14 +1423,48 @@ def _judge(case, tmp):
     return dict(lines=r.lines, events=events, problems=problems, stats=stats)
 
 
+_SEQ = [0]
+
+
 def _work(args):
+    """worker processes are reused: module-level state of the code under test is carried across the
+    cases one worker runs (pid and sequence number let the parent reconstruct that order)"""
     case, tmp = args
     d = os.path.join(tmp, 'w%d' % os.getpid())
     os.makedirs(d, exist_ok=True)
+    _SEQ[0] += 1
     try:
-        return judge_real_only(case, d)
+        to = 20.0 + 3.0 * len(case['cases']) if case['mode'] == 'session' else None
+        res = judge_real_only(case, d, timeout=to)
     except InfraError as e:
         return dict(infra=str(e))
+    res['pid'], res['seq'] = os.getpid(), _SEQ[0]
+    return res
+
+
+def judge_isolated(case, tmp, timeout=None):
+    """judge one case in a FRESH process (forked from the parent, which never runs a case itself), so
+    that a verdict cannot depend on what other cases left behind in module-level state"""
+    import multiprocessing
+    ctx = multiprocessing.get_context('fork')
+    recv, send = ctx.Pipe(False)
+
+    def target():
+        try:
+            r = _work((case, tmp))
+        except BaseException as e:
+            r = dict(infra='%s: %s' % (type(e).__name__, e))
+        send.send(r)
+        send.close()
+    proc = ctx.Process(target=target)
+    proc.start()
+    res = recv.recv() if recv.poll(600) else dict(infra='isolated case did not answer')
+    proc.join(5)
+    if proc.is_alive():
+        proc.kill()
+    if 'infra' in res:
+        raise InfraError(res['infra'])
+    return res
 
 
 def load_corpus():
@@ -1421,7 +1498,11 @@ def main(argv=None):
         with multiprocessing.get_context('fork').Pool(nproc) as pool:
             results = pool.map(_work, [(c, ck.tmp) for c in cases], chunksize=4)
     else:
-        results = [_work((c, ck.tmp)) for c in cases]
+        results = [judge_isolated(c, ck.tmp) for c in cases]
+    by_pid = {}
+    for i, res in enumerate(results):
+        if 'infra' not in res:
+            by_pid.setdefault(res['pid'], []).append((res['seq'], i))
     for res in results:
         if 'infra' in res:
             raise InfraError(res['infra'])
@@ -1441,7 +1522,8 @@ def main(argv=None):
             ck.count(k, n)
         for ev in events:
             ck.count('op:' + ev['kind'])
-        ck.count('mode:' + case['mode'])
+        ck.count('mode:' + case['mode'] + ('/' + case['storage'] if case.get('storage') else '')
+                 + ('/' + case['variant'] if case.get('variant') else ''))
         nontriv = is_nontrivial(stats)
         ck.case(canonical(case), nontriv,
                 sample=dict(case=case, undo_outcomes=[(e.get('ids'), e['res']) for e in events
@@ -1460,23 +1542,44 @@ def main(argv=None):
             if seen_sigs[sig] > (1 if known else 4) or (not known and len(seen_sigs) > 12):
                 ck.count('violating-cases-not-shrunk')
                 continue
+            if case['mode'] == 'session':           # a replayed session: reported as it is
+                pr = [p for p in problems if p[0] == sig]
+                ck.violation(sig, pr[0][1], dict(case, problems=[p[1] for p in pr[:5]]))
+                continue
             blocked = sig == 'C06:step-blocked'
+            to = 2.5 if blocked else None
 
-            def fails(sub_ops, sig=sig, case=case, blocked=blocked):
+            def has_sig(c, sig=sig, to=to):
                 try:
-                    pr = judge_real_only(dict(case, ops=sub_ops), ck.tmp,
-                                         timeout=2.5 if blocked else None)['problems']
+                    return any(p[0] == sig for p in judge_isolated(c, ck.tmp, timeout=to)['problems'])
                 except Exception:
                     return False
-                return any(p[0] == sig for p in pr)
-            small_ops = ddmin(case['ops'], fails, max_tests=40 if blocked else 150)
-            small = dict(case, ops=small_ops)
+            before = []
+            if not has_sig(case):
+                # the failure depends on what the worker process had executed before this case
+                # (module-level state of the code under test): the failing input is that SESSION
+                ck.count('failure-needs-earlier-cases-of-its-process')
+                preds = [cases[j] for q, j in sorted(by_pid.get(res.get('pid'), [])) if q < res['seq']]
+                if preds and has_sig(dict(mode='session', cases=preds + [case])):
+                    before = ddmin(preds, lambda sub: has_sig(dict(mode='session', cases=sub + [case])),
+                                   max_tests=60)
+                    if len(before) == 1:
+                        inner = before[0]
+                        before = [dict(inner, ops=ddmin(inner['ops'], lambda ops: has_sig(dict(
+                            mode='session', cases=[dict(inner, ops=ops), case])), max_tests=60))]
+
+            def wrap(c, before=before):
+                return dict(mode='session', cases=before + [c]) if before else c
+            small = dict(case, ops=ddmin(case['ops'], lambda ops: has_sig(wrap(dict(case, ops=ops))),
+                                         max_tests=40 if blocked else 150))
             try:
-                pr2 = judge_real_only(small, ck.tmp, timeout=2.5 if blocked else None)['problems']
-                pr2 = [p for p in pr2 if p[0] == sig] or [p for p in problems if p[0] == sig]
+                pr2 = judge_isolated(wrap(small), ck.tmp, timeout=to)['problems']
+                pr2 = [p for p in pr2 if p[0] == sig]
             except Exception:
+                pr2 = []
+            if not pr2:
                 small, pr2 = case, [p for p in problems if p[0] == sig]
-            ck.violation(sig, pr2[0][1], dict(small, problems=[p[1] for p in pr2[:5]]))
+            ck.violation(sig, pr2[0][1], dict(wrap(small), problems=[p[1] for p in pr2[:5]]))
         if problems:
             pass
         else:
@@ -1484,7 +1587,7 @@ def main(argv=None):
                 if exp != got:
                     ck.mismatch('model/impl differ [%s] %s: op %r impl %s model %s'
                                 % (tag, what, op, exp, got),
-                                dict(mode=case['mode'], ops=case['ops'], line=op, impl=exp, model=got))
+                                dict(case, line=op, impl=exp, model=got))
                     break
     ck.finish(
         rule='seeded histories (3-7 ordinary transactions over plain and resolvable objects, equal-value '
@@ -1492,7 +1595,9 @@ def main(argv=None):
              'DB/Connection, each followed by undo programs: every transaction as single undo target, '
              'pairs/triples in both orders, undo of undo, redo, random tails with writes, pack (gc on/off) '
              'and close/reopen (with and without index); plus Blob histories over BlobStorage(FileStorage) and '
-             'FileStorage(blob_dir) with undo/redo chains.  non-trivial = an executed undo names a '
+             'FileStorage(blob_dir) (also under HexStorage) with undo/redo chains; a third of the DB-level '
+             'histories run over DemoStorage(changes=FileStorage), a third over HexStorage(FileStorage).  '
+             'non-trivial = an executed undo names a '
              'transaction that is not the newest, or creates an object, or is itself an undo; distinct '
              'by hash of (mode, op list)',
         assumptions=[
